@@ -365,7 +365,7 @@ def main(tier, seed, replay, jobs, scale):
         import json
         cases = [tuple(json.load(open(replay))["replay"]["case"])]
     else:
-        n = int((40 if tier == "quick" else 300) * scale)
+        n = int((40 if tier == "quick" else 600) * scale)
         cases = [(seed, i, tier) for i in range(n)]
     par.absorb(run, par.run_cases(run_case, cases, jobs))
     # distinct non-trivial is counted per plan, not per array
